@@ -311,6 +311,10 @@ AdvertiseDiscoveryResult build_transport_advertise_candidates(const Config& conf
     return result;
 }
 
+bool is_publishable_auto_host(const Config& config, const std::string& host) {
+    return config.advertise_allow_private || !is_private_or_reserved_host(host);
+}
+
 std::optional<Config::AdvertiseCandidate> select_public_advertise_candidate(const AdvertiseDiscoveryResult& result) {
     constexpr std::array<std::string_view, 1> kPreferredMethods{"stun"};
     for (const auto& method : kPreferredMethods) {
